@@ -31,7 +31,8 @@ def plan(tier, seed):
     cases = []
     nrep = 6 if tier == "quick" else 600
     for n in range(1, 13):
-        for spec in ("closed", "fractional", "degenerate", "zeros", "edge_in_lo", "edge_out_lo", "edge_in_hi", "edge_out_hi", "unrestricted"):
+        for spec in ("closed", "fractional", "degenerate", "zeros", "edge_in_lo", "edge_out_lo", "edge_in_hi", "edge_out_hi", "unrestricted",
+                     "blocks", "diagonal"):
             for rep in range(nrep):
                 cases.append({"kind": "naturals", "n": n, "spec": spec, "rep": rep, "seed": seed})
     for nvec in (1, 2, 3):
@@ -68,13 +69,31 @@ def case_naturals(case):
     S = (S + S.T) / 2
     # C = S^-1/2 U  (so that C^T S C = 1)
     C = (q * lam**-0.5) @ q.T @ _random_orth(rng, n)
+    if spec in ("blocks", "diagonal") and n > 1:
+        # structured input: non-interacting fragments / symmetry blocks (block-diagonal S and D), or a diagonal density matrix in
+        # an orthonormal basis: natural orbitals then have exact zeros on whole groups of basis functions
+        n1 = n // 2 if spec == "blocks" else 0
+        S = np.zeros((n, n))
+        C = np.zeros((n, n))
+        if spec == "diagonal":
+            S = np.eye(n)
+            C = np.eye(n)[:, rng.permutation(n)]
+            cond = 1.0
+        else:
+            for lo, hi in ((0, n1), (n1, n)):
+                m = hi - lo
+                q1 = _random_orth(rng, m)
+                lam1 = np.exp(rng.uniform(-np.log(cond), 0, size=m))
+                S[lo:hi, lo:hi] = (q1 * lam1) @ q1.T
+                C[lo:hi, lo:hi] = (q1 * lam1**-0.5) @ q1.T @ _random_orth(rng, m)
+            S = (S + S.T) / 2
     eps = float(10 ** rng.uniform(-6, -2))
     occ_max = 2.0 if spec != "unrestricted" else 1.0
     numerr = 1e2 * np.finfo(float).eps * cond**2 * occ_max + 1e-11  # bound on the eigenvalue error (S enters twice)
     margin = max(10 * numerr, 0.05 * eps)
     if spec == "closed":
         occ = np.where(np.arange(n) < (n + 1) // 2, 2.0, 0.0)
-    elif spec == "fractional":
+    elif spec in ("fractional", "blocks", "diagonal"):
         occ = rng.uniform(0.0, 2.0, size=n)
     elif spec == "degenerate":
         occ = rng.choice([0.0, 0.5, 1.0, 2.0], size=n)
